@@ -1,14 +1,15 @@
 #!/bin/sh
-# usage: tools/seed_check.sh <patch.diff> <prop> [<prop>...]   — apply a seeded change to /repo, run the checks, undo it
+REPO=${STEEL_REPO:-/repo}; export STEEL_REPO=$REPO
+# usage: tools/seed_check.sh <patch.diff> <prop> [<prop>...]   — apply a seeded change to $REPO, run the checks, undo it
 set -u
 patch="$1"; shift
-cd /repo || exit 2
+cd $REPO || exit 2
 if [ -n "$(git status --porcelain --untracked-files=no)" ]; then echo "repo not clean"; exit 2; fi
 git apply "$patch" || { echo "patch does not apply"; exit 2; }
 cd /verif
 for p in "$@"; do
-  ./check "$p" > /tmp/seed_check_$p.out 2>&1; rc=$?
-  echo "== $p exit=$rc"; grep -E "^(VIOLATION|CHECK-ERROR|  rule|checked)" /tmp/seed_check_$p.out | head -12
+  ./check "$p" > ${TMPDIR:-/tmp}/seed_check_$p.out 2>&1; rc=$?
+  echo "== $p exit=$rc"; grep -E "^(VIOLATION|CHECK-ERROR|  rule|checked)" ${TMPDIR:-/tmp}/seed_check_$p.out | head -12
 done
-git -C /repo checkout -- .
-git -C /repo status --porcelain --untracked-files=no | head -3
+git -C $REPO checkout -- .
+git -C $REPO status --porcelain --untracked-files=no | head -3
